@@ -1391,3 +1391,7 @@ impl std::ops::Deref for SecurityPluginsHandle {
     &self.inner
   }
 }
+
+#[cfg(rustdds_verif)]
+#[path = "/verif/harness/incrate/access/security_plugins.rs"]
+mod verif_access;
